@@ -37,7 +37,12 @@ def arc_from_theta(edge_point_1: PointType, edge_point_2: PointType, angle: floa
 
     center = pm - length * axis / 2 - rm * mag_chord / 2 / np.tan(angle / 2)
 
-    return f.arc_mid(axis, center, edge_point_1, edge_point_2)
+    if abs(angle) < np.pi:
+        return f.arc_mid(axis, center, edge_point_1, edge_point_2)
+
+    # the secant construction only finds the middle of the minor arc;
+    # for half circles and reflex arcs turn the first point by half the angle
+    return f.rotate(edge_point_1, angle / 2, axis, center)
 
 
 @dataclasses.dataclass
